@@ -782,6 +782,21 @@ pub fn plans_for(prop: &str, thorough: bool) -> Vec<Plan> {
                 oracles: o,
                 u_cap: 400,
             });
+            if prop == "C01" || prop == "C02" {
+                // "with or without a formatting range": the C09 space under this property's oracle
+                let mut cases = gen::f_seq(2, false);
+                cases = cases.into_iter().enumerate().filter(|(i, _)| thorough && i % 9 == 0 || i % 97 == 0).map(|(_, c)| c).collect();
+                cases.extend(only_dials(stmt.clone(), &[Dial::Core]).into_iter().filter(|c| c.text.contains("end") || c.text.contains('{') || c.text.contains(';')));
+                plans.push(Plan {
+                    name: "F-SEQ + block statements x every pair of range points x width classes",
+                    cases,
+                    cfgs: cross(false, |b| vec![b, Cfg { cs: 3, ..b }]),
+                    widths: Widths::Classes,
+                    ranges: Ranges::TokenPoints,
+                    oracles: o,
+                    u_cap: 400,
+                });
+            }
             if prop == "C07" {
                 // invalid inputs: truncations and single-token splices
                 let mut muts = vec![];
@@ -856,6 +871,15 @@ pub fn plans_for(prop: &str, thorough: bool) -> Vec<Plan> {
                 cfgs: cross(false, |b| vec![b, Cfg { cs: 3, ..b }]),
                 widths: Widths::Classes,
                 ranges: Ranges::None,
+                oracles: O_CENSUS,
+                u_cap: 400,
+            });
+            plans.push(Plan {
+                name: "F-SEQ (comment separators) x every pair of range points",
+                cases: gen::f_seq(2, false).into_iter().filter(|c| c.meta.comments > 0).enumerate().filter(|(i, _)| thorough && i % 9 == 0 || i % 61 == 0).map(|(_, c)| c).collect(),
+                cfgs: cross(false, |b| vec![b]),
+                widths: Widths::Classes,
+                ranges: Ranges::TokenPoints,
                 oracles: O_CENSUS,
                 u_cap: 400,
             });
